@@ -337,12 +337,19 @@ def events_for(trace, children, key):
             ev.append((i, "APreHookRaise"))
         if hr == "post_run_task" and label in ("job.outputs_collected", "job.error_recorded"):
             ev.append((i, "APostHookRaise"))
+    # a killed process dies right after its last recorded label (later lines of other processes come after)
+    inserts = []
     for pid, ch in children.items():
         if ch.get("crashed"):
             i = ch["idx"]
+            pos = max([k for k, (j, _) in enumerate(ev) if j == i], default=-1) + 1
+            extra = []
             if last_label.get(i) in OPEN_LABELS and ch.get("crash_file_status") is not None:
-                ev.append((i, "(AProgress %d)" % {0: 0, 1: 2, 2: 4}[ch["crash_file_status"]]))
-            ev.append((i, "ACrash"))
+                extra.append((i, "(AProgress %d)" % {0: 0, 1: 2, 2: 4}[ch["crash_file_status"]]))
+            extra.append((i, "ACrash"))
+            inserts.append((pos, extra))
+    for pos, extra in sorted(inserts, key=lambda t: -t[0]):
+        ev[pos:pos] = extra
     return ev
 
 
@@ -455,6 +462,15 @@ def run_scenario(sc, workroot=None):
                 infos.append(dict(idx=c.idx, rc=rc, report=rep, hooks=hooks, pid=c.pid,
                                   tail=(c.output or "")[-400:] if rc not in (0, 137) else ""))
             runs_stage.append(len(open(side).read().split()))
+            # what a killed child left in the file it had open, looked at before anybody repairs it
+            tr_now = resolve_keys(read_trace(trace))
+            k_now = next((k for pid, _, l, k in tr_now if l == "job.lock_acquired" and pid in children), None)
+            for c, subs, cd in chs:
+                ch = children[c.pid]
+                if ch["crashed"] and k_now:
+                    mine = [(l, k) for p, _, l, k in tr_now if p == c.pid and k in ("-", k_now)]
+                    if mine and mine[-1][0] in OPEN_LABELS:
+                        ch["crash_file_status"] = file_status(os.path.join(cache, k_now, OPEN_LABELS[mine[-1][0]]))
         tr = resolve_keys(read_trace(trace))
         main_keys = [k for pid, _, l, k in tr if l == "job.lock_acquired" and pid in children]
         keys = []
@@ -464,11 +480,6 @@ def run_scenario(sc, workroot=None):
         # the submitted task's own checksum: the first job that acquired a lock in any child
         key = keys[0] if keys else "-"
         g = observe_cache(cache, key) if key != "-" else None
-        for pid, ch in children.items():
-            if ch["crashed"]:
-                mine = [(l, k) for p, _, l, k in tr if p == pid and k in ("-", key)]
-                if mine and mine[-1][0] in OPEN_LABELS:
-                    ch["crash_file_status"] = file_status(os.path.join(cache, key, OPEN_LABELS[mine[-1][0]]))
         ev = events_for(tr, children, key)
         runs_all = open(side).read().split()
         labels = {}
